@@ -6,6 +6,7 @@ import CwPlus.Lemmas.Cw3FixedNodup
 import CwPlus.Lemmas.Cw3FlexNodup
 import CwPlus.Lemmas.Cw4StakeNodup
 import CwPlus.Lemmas.Ics20Nodup
+import CwPlus.Lemmas.Cw3StatusTotal
 /-!
 # C20 — the 13 listings outside cw20-base
 
@@ -48,7 +49,10 @@ Two peculiarities of the models (both are what the Rust code does):
   when that fails for one listed proposal.  For cw3-fixed this never happens in a reachable state
   (`fixed_status_total`, from `Cw3Fixed.Inv` and `C04.no_panic`).  For cw3-flex the recorded total weight of a
   proposal need not bound its tally (finding D3 of C06), so the flex theorems carry the hypothesis
-  `StatusTotal core blk` (every stored proposal has a status at the query block).
+  `StatusTotal core blk` (every stored proposal has a status at the query block).  `flex_status_total` discharges
+  it in every reachable flex world in which the four tally counters of every proposal together fit `u64`
+  (`TallyFits`; the handlers store only records they could evaluate, and such a record has a status at every
+  block: `Cw3.cs_stable`); `tally_overflow_no_status` shows the one way it can fail otherwise.
 * cw3-flex reads its voters from the group contract of its world; `Cw3Flex.Reachable` starts from an arbitrary
   group state, so `flex_listVoters_complete` additionally assumes that the initial group state is itself
   reachable from an accepted `Cw4Group.instantiate`.
@@ -461,6 +465,38 @@ theorem flex_reverseProposals_complete {ext : Cw3Flex.Ext} {fuel : Nat} {w : Cw3
       = .ok (fetchLoop (fun cur => okItems (Cw3Flex.reverseProposals w.flex blk cur limit)) (·.id) none n) :=
   core_reverseProposals_loop (Cw3Flex.reachable_nodup hr) hv limit hl hf
 
+/-- The four tally counters of every stored proposal together fit `u64`. -/
+def TallyFits (c : Cw3Core.Core) : Prop := ∀ id p, c.proposals.get? id = some p → p.Fits
+
+/-- In a reachable cw3-flex world whose tallies fit `u64`, every stored proposal has a status at every block —
+whatever the group did (the recorded total need not bound the tally): the handlers evaluate `current_status` on
+the record they store, and a record that could be evaluated once can be evaluated at every block. -/
+theorem flex_status_total {ext : Cw3Flex.Ext} {fuel : Nat} {w : Cw3Flex.World} (hr : Cw3Flex.Reachable ext fuel w)
+    (hfit : TallyFits w.flex.core) (blk : Block) : StatusTotal w.flex.core blk :=
+  fun id p hp => Cw3Flex.reachable_statusInv hr id p hp (hfit id p hp) blk
+
+/-- Hence in such a world neither proposal listing ever fails. -/
+theorem flex_proposal_listings_total {ext : Cw3Flex.Ext} {fuel : Nat} {w : Cw3Flex.World}
+    (hr : Cw3Flex.Reachable ext fuel w) (hfit : TallyFits w.flex.core) (blk : Block) (cur limit : Option Nat) :
+    (Cw3Flex.listProposals w.flex blk cur limit).isOk = true ∧ (Cw3Flex.reverseProposals w.flex blk cur limit).isOk = true := by
+  have hn := Cw3Flex.reachable_nodup hr
+  have hv := flex_status_total hr hfit blk
+  constructor
+  · show (Cw3Core.listProposals w.flex.core blk cur limit).isOk = true
+    rw [core_listProposals_eq hn hv]; rfl
+  · show (Cw3Core.reverseProposals w.flex.core blk cur limit).isOk = true
+    rw [core_reverseProposals_eq hn hv]; rfl
+
+attribute [local instance] C04.decEqRes in
+/-- The proviso `TallyFits` cannot be dropped from `cs_stable`: a quorum proposal without Yes weight whose
+`Votes::total()` overflows is Open before its expiry and has no status afterwards. -/
+theorem tally_overflow_no_status :
+    Cw3.currentStatus ⟨.open, .thresholdQuorum Cw3.DEC_ONE Cw3.DEC_ONE, 1, ⟨0, 0, 1, U64_MAX⟩, .atHeight 10⟩ ⟨5, 0⟩
+      = .ok .open ∧
+    (Cw3.currentStatus ⟨.open, .thresholdQuorum Cw3.DEC_ONE Cw3.DEC_ONE, 1, ⟨0, 0, 1, U64_MAX⟩, .atHeight 10⟩
+      ⟨10, 0⟩).isOk = false := by
+  decide
+
 /-- cw3-flex validates the `ListVotes` cursor (`maybe_addr`), unlike cw3-fixed. -/
 theorem flex_listVotes_eq (s : Cw3Flex.State) (id : Nat) (after : Option Cw3Core.AddrArg) (limit : Option Nat) :
     Cw3Flex.listVotes s id after limit =
@@ -524,7 +560,8 @@ proposal id.  For every listing the client loop "request a page, continue from t
 returns every current item exactly once in key order: the sorted entries of the underlying map — reversed for
 `ReverseProposals`, restricted to the unexpired entries for the subkeys `AllAllowances`.  (`length + 1` requests
 suffice; the `…_complete` theorems give the same for every larger number.)  The only hypothesis that is not
-reachability is `StatusTotal` for the two proposal listings of cw3-flex (see the header). -/
+reachability is `StatusTotal` for the two proposal listings of cw3-flex (see the header); `flex_status_total`
+derives it from `TallyFits` (the tally of every stored proposal fits `u64`). -/
 theorem all_listings_complete
     -- cw1-subkeys
     {skm : Cw1Subkeys.InstMsg} {sk0 : Cw1Subkeys.State} (hsk : Cw1Subkeys.instantiate skm = .ok sk0)
